@@ -372,13 +372,13 @@ Proof. vm_compute. repeat split; reflexivity. Qed.
 (* ===================================================================================== *)
 (* LOCKS AS BLOCKING SITES (strengthening).  A sync.Mutex acquisition has no exit bound to   *)
 (* the caller's deadline; it is bounded only through the lock discipline of EVERY user of    *)
-(* the mutex.  Definitions: Spec/LockSpec.v (lock programs, their executions xs/xb with the  *)
+(* the mutex.  Definitions: Spec/LockProgSpec.v (lock programs, their executions xs/xb with the  *)
 (* trace of lock events, exit_clean, ev_ok, lock_disciplined, plain_mutex), Model/LockProg.v *)
-(* (checker fn_ok; thread model tstep/trun, ops_ok, sections_left), Gen/GenLockSites.v       *)
-(* (lock_progs, lock_mutexes, lock_sites, lock_sites_conn: regenerated from the Go source on *)
-(* every run by go2v/locksites.go), Proofs/LockProgP.v.                                      *)
+(* (checker fn_ok; thread model tstep/trun, ops_ok, sections_left), Gen/GenLockProgs.v       *)
+(* (lockp_progs, lockp_mutexes, lockp_sites, lockp_sites_conn: regenerated from the Go source on *)
+(* every run by go2v/lockprogs.go), Proofs/LockProgP.v.                                      *)
 (* ===================================================================================== *)
-From Verif Require Import Spec.LockSpec Gen.GenLockSites Model.LockProg Proofs.LockProgP.
+From Verif Require Import Spec.LockProgSpec Gen.GenLockProgs Model.LockProg Proofs.LockProgP.
 
 (* THE GENERATED LOCK PROGRAMS.  For every function and function literal of package tchannel
    that performs a lock operation (control-flow skeleton regenerated from the source), EVERY
@@ -389,8 +389,8 @@ From Verif Require Import Spec.LockSpec Gen.GenLockSites Model.LockProg Proofs.L
        I/O, dial, Wait, Sleep; here or in a callee of the static call graph) only while no
        plain mutex is held (the context-aware semaphore of peer.go may be)  (no blocking),
      - takes a mutex (here or in a callee) only if it is strictly smaller, in the numbering
-       of lock_mutexes, than every lock held at that moment            (order, no re-entry). *)
-Theorem C05_lock_discipline_generated : Forall (lock_disciplined (sem_of lock_mutexes)) lock_progs.
+       of lockp_mutexes, than every lock held at that moment            (order, no re-entry). *)
+Theorem C05_lock_discipline_generated : Forall (lock_disciplined (sem_of lockp_mutexes)) lockp_progs.
 Proof. exact lock_progs_disciplined. Qed.
 
 (* the checker that decides this over the generated programs is sound for every execution,
@@ -405,7 +405,7 @@ Proof. exact fn_ok_sound. Qed.
    deadline; or the never-blocking semaphore release), or the acquisition of a plain mutex of
    the table, inside a function whose lock program is in the table, all of whose users follow
    the lock discipline. *)
-Theorem C05_every_blocking_site_bounded : Forall (bsite_bounded lock_mutexes lock_progs) call_path_sites.
+Theorem C05_every_blocking_site_bounded : Forall (bsite_bounded lockp_mutexes lockp_progs) call_path_sites.
 Proof. exact all_blocking_sites_bounded. Qed.
 
 (* WHY THE DISCIPLINE BOUNDS A LOCK WAIT.  Threads whose lock operations follow the discipline
@@ -452,8 +452,8 @@ Proof. exact run_is_thread. Qed.
    along ANY of its paths, in ANY interleaving: in every reachable state a lock holder can move,
    and the holders alone free every mutex within the length of the open critical sections *)
 Theorem C05_generated_programs_bound_lock_waits : forall runs : list (lfunc * ltrace * hst),
-  Forall (fun r => let '(f, tr, s) := r in In f lock_progs /\ exists c, c <> CPanic /\ xb (lf_body f) hinit c s tr) runs ->
-  forall ls st, trun (tinit (map (fun r => let '(f, tr, s) := r in thread_of_run (sem_of lock_mutexes) tr s) runs)) ls = Some st ->
+  Forall (fun r => let '(f, tr, s) := r in In f lockp_progs /\ exists c, c <> CPanic /\ xb (lf_body f) hinit c s tr) runs ->
+  forall ls st, trun (tinit (map (fun r => let '(f, tr, s) := r in thread_of_run (sem_of lockp_mutexes) tr s) runs)) ls = Some st ->
   (~ all_free st -> exists i held ops, nth i st ([], []) = (held, ops) /\ held <> [] /\ exists s1, tstep st (TStep i) = Some s1) /\
   (exists ls' s', Forall is_tstep ls' /\ length ls' = sections_left st /\ trun st ls' = Some s' /\ all_free s').
 Proof. exact generated_programs_bound_lock_waits. Qed.
@@ -470,7 +470,7 @@ Print Assumptions C05_leaking_program_refused.
 (* ---------------- non-vacuity ---------------- *)
 (* the generated tables contain the functions, mutexes and acquisitions the property is about *)
 Example C05_example_lock_tables :
-  (60 <= length lock_progs)%nat /\ (25 <= length lock_sites)%nat /\ (50 <= length call_path_sites)%nat /\
+  (60 <= length lockp_progs)%nat /\ (25 <= length lockp_sites)%nat /\ (50 <= length call_path_sites)%nat /\
   has_prog [109; 101; 115; 115; 97; 103; 101; 69; 120; 99; 104; 97; 110; 103; 101; 83; 101; 116; 46; 110; 101; 119; 69; 120; 99; 104; 97; 110; 103; 101] = true /\ has_prog [109; 101; 115; 115; 97; 103; 101; 69; 120; 99; 104; 97; 110; 103; 101; 83; 101; 116; 46; 114; 101; 109; 111; 118; 101; 69; 120; 99; 104; 97; 110; 103; 101] = true /\ has_prog [109; 101; 115; 115; 97; 103; 101; 69; 120; 99; 104; 97; 110; 103; 101; 83; 101; 116; 46; 115; 116; 111; 112; 69; 120; 99; 104; 97; 110; 103; 101; 115] = true /\ has_prog [67; 111; 110; 110; 101; 99; 116; 105; 111; 110; 46; 114; 101; 97; 100; 83; 116; 97; 116; 101] = true /\
   has_prog [114; 101; 108; 97; 121; 73; 116; 101; 109; 115; 46; 65; 100; 100] = true /\ has_prog [80; 101; 101; 114; 46; 71; 101; 116; 67; 111; 110; 110; 101; 99; 116; 105; 111; 110] = true /\
   has_mutex [109; 101; 115; 115; 97; 103; 101; 69; 120; 99; 104; 97; 110; 103; 101; 83; 101; 116] = true /\ has_mutex [67; 111; 110; 110; 101; 99; 116; 105; 111; 110; 46; 115; 116; 97; 116; 101; 77; 117; 116] = true /\ has_mutex [114; 101; 108; 97; 121; 73; 116; 101; 109; 115] = true /\ has_mutex [80; 101; 101; 114] = true /\
